@@ -264,17 +264,17 @@ type walkKont struct {
 }
 
 func walkExtern(x *X, s *State, c *ssa.CallCommon, a []Val, call ssa.Value) (Val, bool) {
-	if len(s.frames) != 1 {
-		x.fail("collections Walk inside an inlined function")
-	}
 	name := collOf(x, a[0])
 	g := s.ghost[name].(*GMap)
 	clo, ok := a[3].(Clo)
 	if !ok {
 		x.fail("Walk callback is %T", a[3])
 	}
-	ord := x.walkOrd
-	x.walkOrd++
+	ord, seen := x.walkIdx[call]
+	if !seen {
+		ord = len(x.walkIdx)
+		x.walkIdx[call] = ord
+	}
 	invs := x.ct.Walks[ord]
 	if len(invs) == 0 {
 		x.fail("walk %d has no invariant", ord)
